@@ -147,7 +147,7 @@ func init() {
 		return runCluster(ClusterCheck{
 			Prop: "C13", Level: "model_checking", Budget: budget(bud), Phases: ph, Floor: 10,
 			AlsoProps: []string{"C10"},
-			Rule: "every seed position p at which a catching-up node (an accepted joiner with fast-sync, before or after its effective round; a validator restarted empty) runs the real Node.fastForward against every serving peer, followed by the rest of the seed (optionally a second join or a leave after the reset) and the fair suffix. Oracle after every step: blocks delivered by the reset node from anchor+1 on equal the first delivery of that index by anybody (same digest as C01, incl. state hash from the restored snapshot) as long as the reset node reported no insertion error; its validator-set table evolves by the C10 replay from the table it adopted and agrees with full-history nodes for rounds >= the anchor round; frames of every processed round have equal hashes on all full-history nodes",
+			Rule:      "every seed position p at which a catching-up node (an accepted joiner with fast-sync, before or after its effective round; a validator restarted empty) runs the real Node.fastForward against every serving peer, followed by the rest of the seed (optionally a second join or a leave after the reset) and the fair suffix. Oracle after every step: blocks delivered by the reset node from anchor+1 on equal the first delivery of that index by anybody (same digest as C01, incl. state hash from the restored snapshot) as long as the reset node reported no insertion error; its validator-set table evolves by the C10 replay from the table it adopted and agrees with full-history nodes for rounds >= the anchor round; frames of every processed round have equal hashes on all full-history nodes",
 			Extra: func(cov map[string]interface{}, agg *Agg) {
 				cov["fast_forwards_performed"] = agg.Counters["ff_done"]
 				cov["reset_nodes_stalled"] = agg.Counters["ff_stalled_nodes"]
